@@ -308,11 +308,29 @@ def rule_koyama_kernel(ctx, rule='R11.k'):
                         ok = False
         if not ok:
             bad.append('kernel/(sin(Bk)/(Bk)) = %s is not exp(-A k^2)' % N.show(q)[:200])
+        else:
+            # the kernel is the Fourier transform of the distribution of the separation r of two sites, so its expansion in k
+            # carries the moments:  K(k) = 1 - <r^2> k^2/6 + <r^4> k^4/120 - ...   With K = sin(Bk)/(Bk) exp(-A k^2):
+            #     B^2 + 6 A = <r^2>      and      B^4 + 20 A B^2 + 60 A^2 = <r^4>
+            A = N.NF.const(0)
+            for a, e in mono:
+                A = A - N.NF({a[1]: N.ONE}) * e / (N.sym('k') * N.sym('k'))
+            r2, r4 = N.sym('r2'), N.sym('r4')
+            try:
+                m2 = B * B + 6 * A - r2
+                m4 = B ** 4 + 20 * A * B * B + 60 * A * A - r4
+                if not m2.is_zero():
+                    bad.append('second moment of the kernel: B^2 + 6A - <r^2> = %s, not 0 (B = %s, A = %s)' % (N.show(m2)[:120], N.show(B)[:80], N.show(A)[:80]))
+                if not m4.is_zero():
+                    bad.append('fourth moment of the kernel: B^4 + 20AB^2 + 60A^2 - <r^4> = %s, not 0' % N.show(m4)[:160])
+            except N.Incomplete as e:
+                ctx.undecided(rule, KOY + '.koyama_kernel_fourier', 'moment identities: %s' % e, m.loc())
     if bad:
         ctx.violation(rule, KOY + '.koyama_kernel_fourier', 'kernel-shape', '; '.join(bad), m.loc())
     else:
-        ctx.holds(rule, KOY + '.koyama_kernel_fourier', 'sin(Bk)/(Bk)*exp(-A k^2), B and A free of k (moment formulas r2, r4 are not checked: '
-                  'no reference text offline)', m.loc(), sample={'kernel': N.show(t)[:200]})
+        ctx.holds(rule, KOY + '.koyama_kernel_fourier', 'sin(Bk)/(Bk)*exp(-A k^2) with B, A free of k and B^2 + 6A = <r^2>, '
+                  'B^4 + 20AB^2 + 60A^2 = <r^4> (the k-expansion of the kernel reproduces the moments it is built from)', m.loc(),
+                  sample={'kernel': N.show(t)[:200]})
 
 
 def rule_koyama_moments(ctx, rule='R11.g'):
